@@ -431,6 +431,7 @@ func corr(seed uint64, n int) {
 	// the reference parameter sets the stage-2 targets parse against (the model parses them itself)
 	fmt.Fprintf(out, "CTX\tavcsps\t%s\n", strings.Join(avcSPSHex, ","))
 	fmt.Fprintf(out, "CTX\tavcpps\t%s\n", strings.Join(avcPPSHex, ","))
+	fmt.Fprintf(out, "CTX\thevcpt\t%s\n", hevcPicTimingCtx())
 	forRounds(n, func(round, m int) {
 		cs := append(walkerCases(seed, round, m, n), seiCorrCases(seed+7, round, m, n)...)
 		cs = append(cs, stage2CorrCases(seed+11, round, m, n)...)
